@@ -337,6 +337,11 @@ def loopTimers (w : World) : World :=
   let w' := { w with timers := [] }
   w.timers.foldl (fun w t => if (w.fibers t.fiber).sched = t.sched then schedule w t.fiber .nil else w) w'
 
+/-- poll phase of janet_loop1, "Drop timeouts that are no longer needed": leading timers whose fiber has been
+    rescheduled since are popped before the loop decides whether / how long to poll -/
+def loopPollDrop (w : World) : World :=
+  { w with timers := w.timers.dropWhile (fun t => (w.fibers t.fiber).sched != t.sched) }
+
 def loopDone (w : World) : Bool := w.runq.isEmpty && w.timers.isEmpty && w.listeners == 0
 
 /-! ### labelled transitions -/
@@ -351,12 +356,14 @@ inductive Action where
   | finish (err : Bool)         -- the running fiber returns / raises
   | runTask                     -- loop: run phase, one task
   | timers                      -- loop: timer phase
+  | poll                        -- loop: poll phase (drops stale timers)
   deriving Repr, DecidableEq
 
 def step (cfg : Cfg) (w : World) (a : Action) : World × Outcome :=
   match w.current, a with
   | none, .runTask => loopRunTask w
   | none, .timers => (loopTimers w, .done)
+  | none, .poll => (loopPollDrop w, .done)
   | some _, .go g => (schedule w g .nil, .ret .nil)
   | some f, .give c x =>
     match chanPush cfg w f c x 0 with
